@@ -157,17 +157,6 @@ end
 /-- the encodings of the elements `vs` of a SEQUENCE OF / SET OF with element type `e` -/
 abbrev encElems (e : OTy) (vs : List Val) : Option (List Bytes) := mapEnc (encOER e) vs
 
-/-- basic-OER variant used to classify finding F55: SET OF elements in the order given (no sorting) -/
-def unsortTy : OTy → OTy
-  | .setOf e => .seqOf (unsortTy e)
-  | .seqOf e => .seqOf (unsortTy e)
-  | .seq root ra ext adds aa => .seq (unsortTys root) ra ext (unsortTys adds) aa
-  | .choice tags alts n => .choice tags (unsortTys alts) n
-  | t => t
-where unsortTys : List OTy → List OTy
-  | [] => []
-  | t :: ts => unsortTy t :: unsortTys ts
-
 /-! ### decoder -/
 
 /-- §8.6: a length determinant (short form, or long form with any number of octets) -/
